@@ -14,7 +14,7 @@ def one_stack(res, which, src, bdir, lib):
     rc, out = sh([exe, ops, impl, res.tier], env={"VERIF_SEED": str(seed())}, timeout=3000)
     if rc != 0:
         last = open(ops).read().splitlines()[-1:] if os.path.exists(ops) else [""]
-        return 0, [{"op": last[0], "impl": "sanitizer abort at %s" % (asan_site(out),), "model": ""}], out, ops, True
+        return 0, [{"op": (last[0] if last else ""), "impl": "sanitizer abort at %s" % (asan_site(out),), "model": ""}], out, ops, True
     run_model(ops, model)
     n, diffs = first_diff(ops, impl, model)
     return n, diffs, out, ops, False
